@@ -1,6 +1,7 @@
 /-
   C01 for the yearly filler, part 2 (layer L2): the candidate set of a year is exactly the set of days the
-  specification's `YearlyInst` allows (`ylyCand_iff`), branch by branch of the combinations `YlySup` covers.
+  specification's `YearlyInst` allows, branch by branch: here the branches without BYWEEKNO and BYYEARDAY
+  (`ylyCand_iff_A`, `_B`, `_D`; `lim_cand` is not reached), the others and `ylyCand_iff` in RrYlyRfc2b.
 -/
 import Echse.Lemmas.RrYlyRfc1
 set_option linter.unusedSimpArgs false
@@ -8,26 +9,26 @@ namespace Echse.Lemmas.RrYlyRfc
 open Echse.Rrule Echse.Instant Echse.Spec.RrOk Echse.Lemmas.RrCandOk Echse.Spec.Rfc Echse.Lemmas.RrRfc
 open Echse.Lemmas.RrCandRfc Echse.Lemmas.RrYlyOk Echse.Spec.Cal Echse.Spec.RuleExt Echse.Lemmas.RrMlyRfc
 
-/-- the candidate set of a year for a date, with what the filler sets up filled in -/
-theorem ylyCand_date (r : Rule) (p : Inst) (nti : Nat) (hr : WfRule r) (hp : WfInst p) (hs : YlySup r)
+/-- the candidate set of a year before `lim_cand` for a date, with what the filler sets up filled in -/
+theorem ylyCand1_date (r : Rule) (p : Inst) (nti : Nat) (hr : WfRule r) (hp : WfInst p) (hs : YlySup r)
     (x : Inst) (hx : DateIn x) (ms : List Nat) (ds pdow : List Int)
     (hms : ms = (if r.mon = [] ∧ r.wk = [] ∧ r.dow = [] ∧ r.doy = [] ∧ r.dom = [] then [p.m] else r.mon))
     (hds : ds = (if r.dom = [] ∧ r.wk = [] ∧ r.dow = [] ∧ r.doy = [] then [(p.d : Int)] else r.dom))
-    (hpd : pdow = (if r.dow = [] ∧ r.wk ≠ [] ∧ r.mon = [] ∧ r.dom = [] ∧ r.doy = [] then
+    (hpd : pdow = (if r.dow = [] ∧ r.wk ≠ [] ∧ r.dom = [] ∧ r.doy = [] then
       [(ymdGetWday p.y p.m p.d : Int)] else [])) :
-    packCand x.m x.d ∈ ylyCand (ylyCtxOf r p nti) x.y ↔
+    packCand x.m x.d ∈ ylyCand1 (ylyCtxOf r p nti) x.y ↔
       (((if wdMaskOf r.dow ≠ 0 ∧ (ds.length ≠ 0 ∨ (!r.doy.isEmpty) = true) then False
          else if wdMaskOf r.dow ≠ 0 ∧ (!r.wk.isEmpty) = true then packCand x.m x.d ∈ fillYlyYwd [] x.y r.wk r.dow
          else if (!pdow.isEmpty) = true then packCand x.m x.d ∈ fillYlyYwd [] x.y r.wk pdow
          else if wdMaskOf r.dow ≠ 0 ∧ ms.length ≠ 0 then x.m ∈ ms ∧ bydayInMonth r x
          else if wdMaskOf r.dow ≠ 0 then bydayInYear r x
-         else False) ∨ (YdaySel r.doy x ∧ WLim (wdMaskOf r.dow) x)) ∨
+         else False) ∨ (YdaySel r.doy x ∧ DLim r (wdMaskOf r.dow) x (decide (ms.length > 0)))) ∨
       (if ms.length = 0 ∧ ds.length = 0 then False
-       else if ms.length = 0 then MdaySel ds x ∧ WLim0 (wdMaskOf r.dow) x
+       else if ms.length = 0 then MdaySel ds x ∧ DLim r (wdMaskOf r.dow) x false
        else if ds.length = 0 then x.m ∈ ms ∧ WLim0 (wdMaskOf r.dow) x
-       else x.m ∈ ms ∧ MdaySel ds x ∧ WLim (wdMaskOf r.dow) x)) := by
+       else x.m ∈ ms ∧ MdaySel ds x ∧ DLim r (wdMaskOf r.dow) x true)) := by
   obtain ⟨f1, f2, f3, f4, f5⟩ := ylyCtx_fields r p nti hs hp
-  have h1 := ylyCand_mem (ylyCtxOf r p nti) (by rw [f1]; exact hs.easter) x hx (ylyCtxOf_ms r p nti hr hp)
+  have h1 := ylyCand1_mem (ylyCtxOf r p nti) (by rw [f1]; exact hs.easter) x hx (ylyCtxOf_ms r p nti hr hp)
     (ylyCtxOf_ds r p nti hr hp) (by rw [f1]; exact hr.doy)
   have h2 := ylyCand0_mem (ylyCtxOf r p nti) x hx (by rw [f1]; exact hr) (by rw [f1]; exact hs.ord)
     (ylyCtxOf_ms r p nti hr hp) (by rw [f1, f2])
@@ -35,9 +36,29 @@ theorem ylyCand_date (r : Rule) (p : Inst) (nti : Nat) (hr : WfRule r) (hp : WfI
   rw [f1, f2, f3, f4, f5, ← hms, ← hds, ← hpd] at h1
   exact h1
 
+/-- … and `lim_cand` on top -/
+theorem ylyCand_date (r : Rule) (p : Inst) (nti : Nat) (hr : WfRule r) (hp : WfInst p) (hs : YlySup r)
+    (x : Inst) (hx : DateIn x) (pdow : List Int)
+    (hpd : pdow = (if r.dow = [] ∧ r.wk ≠ [] ∧ r.dom = [] ∧ r.doy = [] then
+      [(ymdGetWday p.y p.m p.d : Int)] else [])) :
+    packCand x.m x.d ∈ ylyCand (ylyCtxOf r p nti) x.y ↔
+      (if r.wk ≠ [] ∨ r.doy ≠ [] then
+        packCand x.m x.d ∈ ylyCand1 (ylyCtxOf r p nti) x.y ∧ monthOk r x ∧ (r.dom = [] ∨ MdaySel r.dom x) ∧
+          (r.doy = [] ∨ YdaySel r.doy x) ∧ (r.wk = [] ∨ (PdowOk pdow x ∧ weeknoOk r x))
+       else packCand x.m x.d ∈ ylyCand1 (ylyCtxOf r p nti) x.y) := by
+  obtain ⟨f1, f2, f3, f4, f5⟩ := ylyCtx_fields r p nti hs hp
+  have h := ylyCand_lim (ylyCtxOf r p nti) (by rw [f1]; exact hs.easter) x hx (by rw [f1]; exact hr.wk)
+  rw [f1, f5, ← hpd] at h
+  exact h
+
+theorem ylyCand_nolim (r : Rule) (p : Inst) (nti : Nat) (hr : WfRule r) (hp : WfInst p) (hs : YlySup r)
+    (x : Inst) (hx : DateIn x) (h1 : r.wk = []) (h2 : r.doy = []) :
+    packCand x.m x.d ∈ ylyCand (ylyCtxOf r p nti) x.y ↔ packCand x.m x.d ∈ ylyCand1 (ylyCtxOf r p nti) x.y := by
+  rw [ylyCand_date r p nti hr hp hs x hx _ rfl, if_neg (by simp [h1, h2])]
+
 theorem wm_nil : wdMaskOf ([] : List Int) = 0 := rfl
 
-theorem wlim_zero (x : Inst) : WLim 0 x := Or.inl rfl
+theorem dlim_zero (r : Rule) (x : Inst) (mp : Bool) : DLim r 0 x mp := Or.inl rfl
 theorem wlim0_zero (x : Inst) : WLim0 0 x := Or.inl rfl
 
 /-- no date part at all, or BYMONTH alone: DTSTART's day (and month) -/
@@ -45,12 +66,13 @@ theorem ylyCand_iff_A (r : Rule) (p : Inst) (nti : Nat) (hr : WfRule r) (hp : Wf
     (x : Inst) (hx : DateIn x) (h1 : r.wk = []) (h2 : r.doy = []) (h3 : r.dow = []) (h4 : r.dom = []) :
     packCand x.m x.d ∈ ylyCand (ylyCtxOf r p nti) x.y ↔ YlyDate r p x := by
   have hpd := hp.day.1
-  rw [ylyCand_date r p nti hr hp hs x hx (if r.mon = [] then [p.m] else r.mon) [(p.d : Int)] []
+  rw [ylyCand_nolim r p nti hr hp hs x hx h1 h2,
+    ylyCand1_date r p nti hr hp hs x hx (if r.mon = [] then [p.m] else r.mon) [(p.d : Int)] []
     (by simp [h1, h2, h3, h4]) (by simp [h1, h2, h3, h4]) (by simp [h1, h3])]
   unfold YlyDate
   simp only [h1, h2, h3, h4, wm_nil, ne_eq, not_true_eq_false, false_and, if_false, List.isEmpty_nil, Bool.not_true,
     Bool.false_eq_true, and_self, if_true, true_or, true_and, and_true, List.length_cons, List.length_nil,
-    Nat.succ_ne_zero, and_false, false_or, or_false, wlim_zero, mdayOk, ydayOk, ydaySel_nil,
+    Nat.succ_ne_zero, and_false, false_or, or_false, dlim_zero, mdayOk, ydayOk, ydaySel_nil,
     mdaySel_seed p x hpd]
   by_cases c : r.mon = []
   · simp [c, monthOk]
@@ -62,62 +84,40 @@ theorem ylyCand_iff_A (r : Rule) (p : Inst) (nti : Nat) (hr : WfRule r) (hp : Wf
 
 theorem len_ne {α : Type} (l : List α) (h : l ≠ []) : l.length ≠ 0 := fun e => h (List.length_eq_zero_iff.mp e)
 
-/-- BYMONTHDAY, with or without BYMONTH, BYDAY (plain weekdays) limits -/
+theorem wm_zero_iff (r : Rule) : wdMaskOf r.dow = 0 ↔ r.dow = [] := by
+  constructor
+  · intro h
+    apply Classical.byContradiction; intro c
+    exact (wdMask_ne_zero r).2 c h
+  · intro h; rw [h]; rfl
+
+/-- BYMONTHDAY, with or without BYMONTH; BYDAY limits (numbered entries count within the month / the year) -/
 theorem ylyCand_iff_B (r : Rule) (p : Inst) (nti : Nat) (hr : WfRule r) (hp : WfInst p) (hs : YlySup r)
-    (x : Inst) (hx : DateIn x) (h1 : r.wk = []) (h2 : r.doy = []) (h4 : r.dom ≠ []) (hpl : Plain r) :
+    (x : Inst) (hx : DateIn x) (h1 : r.wk = []) (h2 : r.doy = []) (h4 : r.dom ≠ []) :
     packCand x.m x.d ∈ ylyCand (ylyCtxOf r p nti) x.y ↔ YlyDate r p x := by
-  rw [ylyCand_date r p nti hr hp hs x hx r.mon r.dom []
+  rw [ylyCand_nolim r p nti hr hp hs x hx h1 h2, ylyCand1_date r p nti hr hp hs x hx r.mon r.dom []
     (by simp [h4]) (by simp [h4]) (by simp [h1])]
   unfold YlyDate
   have hl := len_ne _ h4
-  have e1 : ¬ (r.doy ≠ [] ∨ r.dom ≠ []) ↔ False := by simp [h4]
   simp only [h1, h2, hl, ne_eq, not_true_eq_false, not_false_eq_true, true_or, and_true, List.isEmpty_nil,
     Bool.not_true, Bool.false_eq_true, and_false, if_false, ydaySel_nil, false_and, or_false, false_or,
-    mdaySel_iff r x h4, wlim_plain r hr hpl x, wlim0_plain r hr hpl x, true_and, ydayOk, h4, or_true, if_true]
-  by_cases cw : wdMaskOf r.dow = 0
-  · have hd : r.dow = [] := by
-      by_cases c : r.dow = []
-      · exact c
-      · exact absurd cw ((wdMask_ne_zero r).2 c)
-    simp only [hd, wm_nil, not_true_eq_false, if_false, true_or, and_true, monthOk, false_and, false_or]
+    mdaySel_iff r x h4, dlim_iff r hr hs.ord x hx, true_and, ydayOk, h4, or_true, if_true]
+  by_cases cd : r.dow = []
+  · simp only [cd, wm_nil, not_true_eq_false, if_false, true_or, and_true, monthOk, false_and, false_or]
     by_cases cm : r.mon = []
     · simp [cm]
     · simp [cm, len_ne _ cm]
-  · have hd : r.dow ≠ [] := by intro e; rw [e] at cw; exact cw rfl
-    simp only [cw, not_false_eq_true, if_true, false_or, hd, monthOk]
+  · have cw : wdMaskOf r.dow ≠ 0 := (wdMask_ne_zero r).2 cd
+    simp only [cw, cd, not_false_eq_true, if_true, false_or, monthOk]
     by_cases cm : r.mon = []
     · simp [cm]
     · simp [cm, len_ne _ cm]
-
-/-- BYYEARDAY, BYDAY (plain weekdays) limits -/
-theorem ylyCand_iff_C (r : Rule) (p : Inst) (nti : Nat) (hr : WfRule r) (hp : WfInst p) (hs : YlySup r)
-    (x : Inst) (hx : DateIn x) (h1 : r.wk = []) (h2 : r.doy ≠ []) (h4 : r.dom = []) (h5 : r.mon = [])
-    (hpl : Plain r) :
-    packCand x.m x.d ∈ ylyCand (ylyCtxOf r p nti) x.y ↔ YlyDate r p x := by
-  rw [ylyCand_date r p nti hr hp hs x hx [] [] []
-    (by simp [h2, h5]) (by simp [h2, h4]) (by simp [h1])]
-  unfold YlyDate
-  have hde : (!r.doy.isEmpty) = true := by
-    cases hd : r.doy with
-    | nil => exact absurd hd h2
-    | cons a l => rfl
-  simp only [h1, h4, h5, hde, h2, ne_eq, not_true_eq_false, not_false_eq_true, true_or, or_true, and_true,
-    List.isEmpty_nil, Bool.not_true, Bool.false_eq_true, and_false, if_false, false_and, or_false, List.length_nil,
-    and_self, if_true, ydaySel_iff r x h2, wlim_plain r hr hpl x, true_and, monthOk, mdayOk]
-  by_cases cw : wdMaskOf r.dow = 0
-  · have hd : r.dow = [] := by
-      by_cases c : r.dow = []
-      · exact c
-      · exact absurd cw ((wdMask_ne_zero r).2 c)
-    simp [hd, wm_nil]
-  · have hd : r.dow ≠ [] := by intro e; rw [e] at cw; exact cw rfl
-    simp [cw, hd]
 
 /-- BYDAY within the year, or within the months of BYMONTH -/
 theorem ylyCand_iff_D (r : Rule) (p : Inst) (nti : Nat) (hr : WfRule r) (hp : WfInst p) (hs : YlySup r)
     (x : Inst) (hx : DateIn x) (h1 : r.wk = []) (h2 : r.doy = []) (h4 : r.dom = []) (h3 : r.dow ≠ []) :
     packCand x.m x.d ∈ ylyCand (ylyCtxOf r p nti) x.y ↔ YlyDate r p x := by
-  rw [ylyCand_date r p nti hr hp hs x hx r.mon [] []
+  rw [ylyCand_nolim r p nti hr hp hs x hx h1 h2, ylyCand1_date r p nti hr hp hs x hx r.mon [] []
     (by simp [h3]) (by simp [h3, h4]) (by simp [h1])]
   unfold YlyDate
   have cw : wdMaskOf r.dow ≠ 0 := (wdMask_ne_zero r).2 h3
@@ -139,57 +139,5 @@ theorem ylyCand_iff_D (r : Rule) (p : Inst) (nti : Nat) (hr : WfRule r) (hp : Wf
       · exact h
       · exact ⟨h, hw0 hw⟩
     · intro h; exact Or.inl h
-
-/-- BYWEEKNO, with BYDAY (plain weekdays) or else DTSTART's weekday -/
-theorem ylyCand_iff_E (r : Rule) (p : Inst) (nti : Nat) (hr : WfRule r) (hp : WfInst p) (hs : YlySup r)
-    (hy : 1901 ≤ p.y) (x : Inst) (hx : DateIn x) (h1 : r.wk ≠ []) (h2 : r.doy = []) (h4 : r.dom = [])
-    (h5 : r.mon = []) (hpl : Plain r) :
-    packCand x.m x.d ∈ ylyCand (ylyCtxOf r p nti) x.y ↔ YlyDate r p x := by
-  have hwk : (!r.wk.isEmpty) = true := by
-    cases hd : r.wk with
-    | nil => exact absurd hd h1
-    | cons a l => rfl
-  have hpy := hp.year
-  have hpd : p.d ≤ 31 := by have := hp.day.2; have := getNdom_le p.y p.m; omega
-  have hwp : ymdGetWday p.y p.m p.d = wdayOf (dayOf p) :=
-    Echse.RuleExt.wday_eq p.y p.m p.d (by omega) (by omega) hp.month.1 hp.month.2 hpd
-  have hwdr := wdayOf_range (dayOf x)
-  have hwdp := wdayOf_range (dayOf p)
-  unfold YlyDate
-  by_cases c3 : r.dow = []
-  · rw [ylyCand_date r p nti hr hp hs x hx [] [] [(ymdGetWday p.y p.m p.d : Int)]
-      (by simp [h1, h5]) (by simp [h1, h4]) (by simp [c3, h1, h2, h4, h5])]
-    simp only [c3, wm_nil, h2, h4, h5, h1, hwk, ne_eq, not_true_eq_false, not_false_eq_true, false_and, if_false,
-      List.isEmpty_cons, Bool.not_false, if_true, ydaySel_nil, or_false, List.length_nil, and_self, false_or,
-      and_true, true_and, monthOk, mdayOk, ydayOk, true_or,
-      mem_ywd_date_rule r x hx _ (fun w hw => hr.wk w hw)]
-    rw [hwp]
-    constructor
-    · rintro ⟨⟨dc, hdc, _, _, e⟩, hw⟩
-      simp only [List.mem_singleton] at hdc
-      exact ⟨hw, by omega⟩
-    · rintro ⟨hw, e⟩
-      exact ⟨⟨_, List.mem_singleton.mpr rfl, by omega, by omega, by omega⟩, hw⟩
-  · have cw : wdMaskOf r.dow ≠ 0 := (wdMask_ne_zero r).2 c3
-    rw [ylyCand_date r p nti hr hp hs x hx [] [] []
-      (by simp [h1, h5]) (by simp [h1, h4]) (by simp [c3])]
-    simp only [c3, cw, h2, h4, h5, h1, hwk, ne_eq, not_true_eq_false, not_false_eq_true, false_and, if_false,
-      List.isEmpty_nil, Bool.not_true, Bool.false_eq_true, or_self, and_false, and_true, if_true, ydaySel_nil,
-      or_false, List.length_nil, and_self, false_or, true_and, monthOk, mdayOk, ydayOk, true_or,
-      mem_ywd_date_rule r x hx _ (fun w hw => hr.wk w hw), ywd_limit r hpl x]
-    constructor
-    · rintro ⟨a, b⟩; exact ⟨b, a⟩
-    · rintro ⟨a, b⟩; exact ⟨b, a⟩
-
-/-- L2: the candidate set of a year is the set of days the specification allows, for the combinations `YlySup` covers -/
-theorem ylyCand_iff (r : Rule) (p : Inst) (nti : Nat) (hr : WfRule r) (hp : WfInst p) (hs : YlySup r) (hy : 1901 ≤ p.y)
-    (x : Inst) (hx : DateIn x) :
-    packCand x.m x.d ∈ ylyCand (ylyCtxOf r p nti) x.y ↔ YlyDate r p x := by
-  rcases hs.combo with ⟨a, b, c, d⟩ | ⟨a, b, c, d⟩ | ⟨a, b, c, d, e⟩ | ⟨a, b, c, d⟩ | ⟨a, b, c, d, e⟩
-  · exact ylyCand_iff_A r p nti hr hp hs x hx a b c d
-  · exact ylyCand_iff_B r p nti hr hp hs x hx a b c d
-  · exact ylyCand_iff_C r p nti hr hp hs x hx a b c d e
-  · exact ylyCand_iff_D r p nti hr hp hs x hx a b c d
-  · exact ylyCand_iff_E r p nti hr hp hs hy x hx a b c d e
 
 end Echse.Lemmas.RrYlyRfc
